@@ -582,9 +582,44 @@ def check_reset_rerun():
         obs.append({"name": "reset-rerun::identical-trace", "kind": "bounded", "status": "refuted", "backend": "cpython", "time_s": 0.0,
                     "failing_input": {"first run": first, "after reset()": second,
                                       "how": "real Simulator with a clock, a changed()-loop process, a testbench and a memory"}})
+    # simulators do not share state: two of them alive at once, created before either runs / run interleaved with a reset,
+    # each give the trace a lone simulator gives
+    def build():
+        mm = Module()
+        c = Signal(4, init=2, name="c")
+        x = Signal(4, name="x")
+        mm.d.sync += c.eq(c + x)
+        s_ = Simulator(mm)
+        s_.add_clock(Period(MHz=1))
+        tr = []
+
+        async def tb_(ctx):
+            for k in range(4):
+                ctx.set(x, 1 + k)
+                await ctx.tick()
+                tr.append(ctx.get(c))
+        s_.add_testbench(tb_)
+        return s_, tr
+    lone, lone_tr = build()
+    lone.run()
+    a, a_tr = build()
+    b, b_tr = build()
+    a.run()
+    b.run()
+    first_a = list(a_tr)
+    a_tr.clear()
+    a.reset()
+    a.run()
+    ok2 = first_a == lone_tr and b_tr == lone_tr and a_tr == lone_tr and len(lone_tr) == 4
+    if not ok2:
+        obs.append({"name": "reset-rerun::simulators-are-independent", "kind": "bounded", "status": "refuted", "backend": "cpython", "time_s": 0.0,
+                    "failing_input": {"lone simulator": lone_tr, "A (created before B, run first)": first_a, "B": b_tr, "A after reset() and rerun": a_tr,
+                                      "how": "two real Simulators of identical designs alive at once: create A, create B, run A, run B, A.reset(), run A"}})
     return {"task": "reset-rerun", "paths": 0, "solver_s": 0.0, "obligations": obs,
             "bounded": [{"name": "simulation repeats identically after Simulator.reset()", "bound": "one design, 6 cycles", "cases": 1,
-                         "failures": 0 if ok else 1}]}
+                         "failures": 0 if ok else 1},
+                        {"name": "two simulators alive at once are independent", "bound": "one design, create A, create B, run A, run B, reset A, run A",
+                         "cases": 1, "failures": 0 if ok2 else 1}]}
 
 
 def run_task(task):
